@@ -299,7 +299,8 @@ def check_B7(ctx, facts):
         ctx.bad('C17.B7', 'lmdb|anchors', '', 'LMDB keyspace registry writer / get_keyspace_list not found (fail closed)')
     else:
         reads = []
-        for rb in cg.reach([kl], bound=6):
+        # (the list request may travel to a worker thread as a message: channel edges count for this may-reach question)
+        for rb in cg.reach([kl], bound=8, channels=True):
             if rb.crate != 'datacake_lmdb':
                 continue
             for _b, t in rb.calls():
